@@ -61,6 +61,10 @@ def main():
             results[prop] = {"verdict": verdict, "sigs": sigs[:8], "n_sigs": len(sigs), "wall_s": round(time.time() - t0, 1),
                              "inconclusive": incon[:3]}
             print(f"{prop}: {verdict} in {time.time() - t0:.0f}s  {sigs[:4]} {incon[:2]}", flush=True)
+            if verdict == "INCONCLUSIVE" and "FAILED" in r.stdout:
+                i = r.stdout.index("FAILED")
+                errs = [l for l in r.stdout[i:].splitlines() if l.startswith("error") or l.lstrip().startswith("-->")]
+                print("  build failure: " + " | ".join(errs[:6]), flush=True)
     finally:
         sh(["git", "-C", REPO, "checkout", "--", "."])
         sh(["git", "-C", REPO, "clean", "-fdq", "tests", "src"])
